@@ -292,8 +292,8 @@ struct Runner
   {
     int ni = cur_node.back();
     const Node& n = tree.nodes[(size_t)ni];
-    if (sbx != sb[(size_t)n.s].get())
-      c.violate("C12", "wrong_sandbox_reference@tree", "callback of sandbox #%d received another sandbox", n.s);
+    if (sbx != sb[(size_t)n.s].get() && wrong_ref_of < 0)
+      wrong_ref_of = n.s; // reported (C12) after the notifications have been compared, so that both properties see the run
     int i = child_index.back()++;
     const Node::Child& ch = n.ch[(size_t)i];
     if (ctl.hit()) {
@@ -335,6 +335,7 @@ struct Runner
     return 7;
   }
   std::vector<int> child_index;
+  int wrong_ref_of = -1;
 
   void run(const Plan& p)
   {
@@ -351,9 +352,25 @@ struct Runner
 #endif
     for (int s = 0; s < nsbx; s++) {
       sb.push_back(std::make_unique<Sandbox>());
-      BT<Sbx>::create(*sb.back());
       void* st0 = &state_objs[(next_state++) % 64];
-      sb.back()->set_transition_state(st0);
+      // when the application installs the state: after create (usual), before create, or before an earlier incarnation
+      int when = (int)(((uint64_t)op.a[5] >> (8 + 2 * s)) % 3);
+      if (when == 1) {
+        sb.back()->set_transition_state(st0);
+        BT<Sbx>::create(*sb.back());
+        c.probe("transition_state_installed_before_create");
+      } else if (when == 2) {
+        BT<Sbx>::create(*sb.back());
+        sb.back()->set_transition_state(st0);
+        sb.back()->destroy_sandbox();
+        BT<Sbx>::create(*sb.back());
+        c.probe("transition_state_installed_in_earlier_incarnation");
+      } else {
+        BT<Sbx>::create(*sb.back());
+        sb.back()->set_transition_state(st0);
+      }
+      if (sb.back()->get_transition_state() != st0)
+        c.violate("C19", "transition_state_lost@tree", "sandbox #%d: get_transition_state() does not return what was installed (order %d)", s, when);
       state.push_back(st0);
     }
     next_state_model = next_state;
@@ -526,6 +543,8 @@ struct Runner
       c.st.sim_ns += (uint64_t)g_clock_now;
     }
 #endif
+    if (wrong_ref_of >= 0)
+      c.violate("C12", "wrong_sandbox_reference@tree", "callback of sandbox #%d received another sandbox", wrong_ref_of);
     g_body = nullptr;
     own.clear();
     for (auto& s : sb)
@@ -552,7 +571,7 @@ struct TransitionWorld : World
     o.a[2] = (int64_t)r.below(3);
     o.a[3] = r.chance(1, 6) ? 0 : (int64_t)r.range(1, 30);
     o.a[4] = r.chance(2, 3) ? 0 : (int64_t)r.range(1, 40);
-    o.a[5] = (int64_t)r.below(1000);
+    o.a[5] = (int64_t)r.below(1000) | ((int64_t)r.below(16) << 8);
     p.ops.push_back(o);
     return p;
   }
